@@ -37,12 +37,13 @@ ASSUMPTIONS = [
 
 def r1(ctx):
     P = ctx.project
-    prep = P.func(MAT + "._prepare_model_specs").locals_named("prepare_model_spec")
+    from .shared import spec_binder
+    prep = spec_binder(P)   # today: the nested prepare_model_spec
     ov = [v for n, v, _ in assignments(prep.node) if n == "overrides" and isinstance(v, ast.Dict)]
     if not ov:
         raise AnalysisError("C18.R1: overrides dict of prepare_model_spec not found")
     d = {k.value: v for k, v in zip(ov[0].keys, ov[0].values) if isinstance(k, ast.Constant)}
-    mp = param_names(prep.node)[0]
+    mp = [p_ for p_ in param_names(prep.node) if p_ not in ("self", "cls")][0]
     for fld in ("transform_state", "encoder_state"):
         ctx.look()
         v = d.get(fld)
